@@ -2,7 +2,7 @@
 from vlib.core import Case, hx
 
 ID = "C03"
-RULE = ("op hdk.derive <seed> <path>: seeds of length 0,1,16,32,64,65,128 and random; depths 1..10 and long paths (up to 513 components, thorough 1000: around 32/64/128/256/512); indices from {0,1,2^31-1,random} x "
+RULE = ("op hdk.derive <seed> <path>: seeds of length 0,1,16,32,64,65,128 and random; seeds of 16/32/64/66 bytes that look like the text of an encoding (hex digits, 0x…, decimal, base64, words, JSON, blanks: vlib/magic.text_like); depths 1..10 and long paths (up to 513 components, thorough 1000: around 32/64/128/256/512); indices from {0,1,2^31-1,random} x "
         "{hardened, normal}; mixed sequences; normal below hardened; BIP-32 test vectors 1, 2, 3 and 4 (leading-zero parent keys); sequences of 2..6 derivations in one thread over a few seeds and textually / structurally related paths (op seq); non-trivial = distinct (seed, path); "
         "judge = Spec.Bip32 (CKDpriv from the standard) with independent HMAC-SHA512 / secp256k1")
 EXHAUSTIVE_SWEEPS = {"quick": [], "thorough": []}
@@ -23,6 +23,13 @@ def gen(rng, tier):
     for s in seeds:
         for p in vecs:
             cases.append(Case("hdk.derive %s %s" % (hx(s), hx(p)), tags=("vector",)))
+    # seeds that are binary data to derive() but LOOK like the text of an encoding (hex digits with and without 0x,
+    # decimal digits, base64, words, JSON, blanks …): the master key is HMAC-SHA512 of exactly these bytes
+    from vlib import magic
+    for nb in (16, 32, 64) + ((8, 33, 66, 128) if tier == "thorough" else (66,)):
+        for sd_, tag in magic.text_like(rng, nb):
+            for p_ in rng.sample(vecs, 2):
+                cases.append(Case("hdk.derive %s %s" % (hx(sd_), hx(p_)), tags=("text-like-seed", tag)))
     n = 1500 if tier == "thorough" else 250
     for _ in range(n):
         s = rng.choice(seeds) if rng.random() < 0.3 else rb(rng.choice([16, 32, 64, rng.randint(1, 100)]))
